@@ -11,7 +11,7 @@ import types
 
 from ..framework import Check, Violation
 from ..xplore import explore, run_once
-from .. import harness, memfs
+from .. import env, harness, memfs
 from ..simdev.base import World, Device, SW, DropLinkBase, DeviceFault
 from .c09 import FakeSocketServerModule, DetRandom, PIN_FILE
 
@@ -279,21 +279,29 @@ class C10(Check):
                 ch = alphabet[self.seq[self.i % len(self.seq)]]
                 self.i += 1
                 return ch if ch in pool else pool[0]
-        saved = LPIN.random
+
+            def index(self, n):
+                # an integer below n: the position of the drawn character in the generator's pool
+                chars = LPIN.BasePin.POSSIBLE_CHARS
+                ch = self.choice(chars)
+                return chars.index(ch) if n == len(chars) else ord(ch) % n
+        unbind = lambda: None    # noqa: E731
         try:
             for rest in itertools.product(range(4), repeat=6):
                 seq = list(case["first"]) + list(rest) + [2]     # 9th choice 'a' ends a rejection loop
-                LPIN.random = Seq(seq)
+                unbind()
+                src = Seq(seq)
+                unbind = env.bind_random(LPIN, src)
                 stats.evaluations += 1
                 try:
                     pin = LPIN.BasePin.generate_pin()
                 except GeneratorLivelock:
                     vs.append(Violation("C10", "C10:I3-generator-does-not-terminate", dict(case, seq=seq),
-                                        None, {"choices_consumed": LPIN.random.i},
+                                        None, {"choices_consumed": src.i},
                                         "a PIN after finitely many draws (the stream contains letters)", "I3"))
                     break
                 ok = isinstance(pin, bytes) and policy_ok(pin)
-                stats.observe(("gen", any(c == 2 or c == 3 for c in seq[:8]), ok, LPIN.random.i > 8))
+                stats.observe(("gen", any(c == 2 or c == 3 for c in seq[:8]), ok, src.i > 8))
                 if not ok:
                     vs.append(Violation("C10", "C10:I3-generated-pin-violates-policy", dict(case, seq=seq),
                                         None, {"pin": pin}, "8 alphanumerics with a letter", "I3"))
@@ -301,7 +309,7 @@ class C10(Check):
                     vs.append(Violation("C10", "C10:I3-generated-pin-not-valid-for-loader", dict(case, seq=seq),
                                         None, {"pin": pin}, "is_valid", "I3"))
         finally:
-            LPIN.random = saved
+            unbind()
         return vs
 
     def driver(self, case):
@@ -338,7 +346,8 @@ class C10(Check):
             fs.on_crash = lambda: setattr(w, "dead", True)
             environ = {"PIN": DEFAULT_PIN.decode()} if case["default"] else {}
             lifetimes = []
-            saved = (LPIN.os, LPIN.__dict__.get("open"), LPIN.random, RUN.configure_logging,
+            _unbind_random = lambda: None    # noqa: E731
+            saved = (LPIN.os, LPIN.__dict__.get("open"), None, RUN.configure_logging,
                      SRV.socketserver, manager_ledger.os, manager_sgx.os)
             try:
                 for life in range(self.lifetimes):
@@ -348,7 +357,8 @@ class C10(Check):
                     LPIN.open = fs.open
                     rnd = DetRandom()
                     rnd.n = life * 5
-                    LPIN.random = rnd
+                    _unbind_random()
+                    _unbind_random = env.bind_random(LPIN, rnd)
                     RUN.configure_logging = lambda p: None
                     SRV.socketserver = FakeSocketServerModule(record)
                     fake_os = memfs.FakeOs(fs, environ)
@@ -402,7 +412,8 @@ class C10(Check):
                     if dev.wiped:
                         break
             finally:
-                (LPIN.os, op, LPIN.random, RUN.configure_logging, SRV.socketserver,
+                _unbind_random()
+                (LPIN.os, op, _ignored, RUN.configure_logging, SRV.socketserver,
                  manager_ledger.os, manager_sgx.os) = saved
                 if op is None:
                     LPIN.__dict__.pop("open", None)
@@ -462,14 +473,15 @@ class C10(Check):
                         out["stopped"] = step
                         break
             record.on_serve = on_serve
-            saved = (LPIN.os, LPIN.__dict__.get("open"), LPIN.random, RUN.configure_logging,
+            _unbind_random = lambda: None    # noqa: E731
+            saved = (LPIN.os, LPIN.__dict__.get("open"), None, RUN.configure_logging,
                      SRV.socketserver, manager_ledger.os, manager_sgx.os)
             crashed = None
             try:
                 harness.bind_world(w)
                 LPIN.os = memfs.FakeOs(fs)
                 LPIN.open = fs.open
-                LPIN.random = DetRandom()
+                _unbind_random = env.bind_random(LPIN, DetRandom())
                 RUN.configure_logging = lambda p: None
                 SRV.socketserver = FakeSocketServerModule(record)
                 fake_os = memfs.FakeOs(fs, {"PIN": DEFAULT_PIN.decode()})
@@ -494,7 +506,8 @@ class C10(Check):
                 except BaseException as e:   # noqa
                     crashed = type(e).__name__
             finally:
-                (LPIN.os, op, LPIN.random, RUN.configure_logging, SRV.socketserver,
+                _unbind_random()
+                (LPIN.os, op, _ignored, RUN.configure_logging, SRV.socketserver,
                  manager_ledger.os, manager_sgx.os) = saved
                 if op is None:
                     LPIN.__dict__.pop("open", None)
